@@ -285,12 +285,17 @@ package casket
 //@ invariant forall(k, 0, len(instances), instances[k] != nil)
 //@ // Stop stops every server, takes the instance off the list under the lock, and reports no error (a server that fails
 //@ // to stop is logged): Restart treats an error from it as a failed reload although the successor is already live.
+//@ define listed() bool = exists(k, 0, len(instances), instances[k] == i)
 //@ func (*Instance).Stop
 //@   requires i != nil
 //@   modifies G:github.com/tmpim/casket.instances, E:*github.com/tmpim/casket.Instance, ghost:held
 //@   ensures [stop_reports_no_error] result == nil
 //@   ensures [lock_balance] held(instancesMu) == old(held(instancesMu))
+//@   ensures [a_listed_instance_is_taken_off_the_list] old(listed()) ==> len(instances) == old(len(instances)) - 1
+//@   ensures [list_never_grows] len(instances) <= old(len(instances))
+//@   ensures [remaining_entries_were_listed_before] forall(k, 0, len(instances), exists(j, 0, old(len(instances)), instances[k] == old(instances[j])))
 //@   loop 2 invariant forall(k, 0, len(instances), instances[k] != nil)
+//@   loop 2 invariant 0 <= #i && #i <= len(instances) && instances == old(instances) && forall(k, 0, #i, instances[k] != i)
 
 //@ unit internal_hosts frames=on props=C15 filter=`casket\.IsInternal$`
 //@ // "managed HTTPS exactly when the host qualifies": a host under one of the reserved suffixes .example, .invalid, .test,
@@ -436,3 +441,50 @@ package casket
 //@   requires c != nil && c.instance != nil
 //@   modifies Instance.OnFinalShutdown, E:func() error
 //@   ensures [appended_last_earlier_ones_kept] len(c.instance.OnFinalShutdown) == old(len(c.instance.OnFinalShutdown)) + 1 && c.instance.OnFinalShutdown[len(c.instance.OnFinalShutdown)-1] == fn && forall(k, 0, old(len(c.instance.OnFinalShutdown)), c.instance.OnFinalShutdown[k] == old(c.instance.OnFinalShutdown[k]))
+
+//@ unit plugins_sweep props=C11,C08 files=plugins.go nilchecks=on nonnil_params=on filter=`.`
+//@ // the plugin registry (server types, directives, event hooks, parsing callbacks, Casketfile loaders): safety sweep; the
+//@ // registration functions' documented panics (empty or duplicate names) are their contract, stated as preconditions
+//@ use @verif/specs/stdlib.spec:stdlib
+//@ // the registry tables are made by package-level initialisers and only ever hold live inner tables (assumed at entry,
+//@ // re-established at every exit of the functions that write them)
+//@ invariant serverTypes != nil && plugins != nil && parsingCallbacks != nil
+//@ invariant (t string) has(plugins, t) ==> plugins[t] != nil
+//@ invariant (t string) has(parsingCallbacks, t) ==> parsingCallbacks[t] != nil
+//@ // registering twice under one name, or under an empty name, is a programming error of a plugin author and panics by
+//@ // design (documented); registrations happen in package initialisers, not while a Casketfile is loaded
+//@ func RegisterServerType
+//@   may_panic
+//@ func RegisterPlugin
+//@   may_panic
+//@ func RegisterEventHook
+//@   may_panic
+//@ func ListPlugins$1
+//@   requires p != nil
+
+//@ unit casket_rest_sweep props=C08,C16 files=casket.go,sigtrap.go,sigtrap_posix.go nilchecks=on nonnil_params=on exclude=`casket\.(Stop|startWithListenerFds|startWithListenerFds\$1|startServers|startServers\$[0-9]+|executeDirectives|executeDirectives\$[0-9$]+|ValidateAndExecuteDirectives|IsLoopback|IsInternal|allShutdownCallbacks|executeShutdownCallbacks|executeShutdownCallbacks\$1|trapSignalsPosix\$1)$|casket\.Instance\)\.(Restart|Restart\$1|Stop|ShutdownCallbacks)$` filter=`.`
+//@ // the rest of the life-cycle code (Start, process-wide Stop, Casketfile loading, pid file, signal traps): safety sweep
+//@ use @verif/specs/stdlib.spec:stdlib
+
+//@ unit process_stop frames=on props=C16,C08 nilchecks=on filter=`casket\.Stop$`
+//@ // C16 "shutdown": the process-wide Stop stops the instances one by one until none is listed - every round stops the first
+//@ // listed instance, which takes it off the list (contract of Instance.Stop, unit instance_stop), so the loop ends after as
+//@ // many rounds as there were instances; the list lock is balanced.
+//@ invariant forall(k, 0, len(instances), instances[k] != nil)
+//@ define listedI(x *Instance) bool = exists(k, 0, len(instances), instances[k] == x)
+//@ extern log.Printf
+//@ extern (*sync.WaitGroup).Add
+//@ func (*Instance).Stop
+//@   requires i != nil
+//@   modifies G:github.com/tmpim/casket.instances, E:*github.com/tmpim/casket.Instance, ghost:held
+//@   ensures [stop_reports_no_error] result == nil
+//@   ensures [lock_balance] held(instancesMu) == old(held(instancesMu))
+//@   ensures [a_listed_instance_is_taken_off_the_list] old(listedI(i)) ==> len(instances) == old(len(instances)) - 1
+//@   ensures [remaining_entries_were_listed_before] forall(k, 0, len(instances), exists(j, 0, old(len(instances)), instances[k] == old(instances[j])))
+//@ func Stop
+//@   requires forall(k, 0, len(instances), instances[k] != nil && instances[k].wg != nil)
+//@   modifies G:github.com/tmpim/casket.instances, E:*github.com/tmpim/casket.Instance, ghost:held
+//@   ensures [every_instance_stopped_none_left] len(instances) == 0 && result == nil
+//@   ensures [lock_balance] held(instancesMu) == old(held(instancesMu))
+//@   loop 1 invariant forall(k, 0, len(instances), instances[k] != nil && instances[k].wg != nil) && held(instancesMu) == old(held(instancesMu))
+//@   loop 1 decreases len(instances)
